@@ -104,7 +104,7 @@ _SCHEMAS = {}
 
 def subject(case):
     import xmlschema
-    key = json.dumps([case['hier'], case['elems'], case['docref'], case['version']], sort_keys=True)
+    key = json.dumps([case['hier'], case['elems'], case['docref'], case['version'], case.get('inherit')], sort_keys=True)
     if key not in _SCHEMAS:
         cls = xmlschema.XMLSchema11 if case['version'] == '1.1' else xmlschema.XMLSchema10
         try:
